@@ -40,6 +40,7 @@ theorem tickL_none {cfg : Cfg} {s : St} (h : tickL cfg s = none) (hl : lqFree s 
   · cases h
   · cases h
   · cases h
+  · cases h
   · rename_i e _
     obtain ⟨r, hr⟩ := errStep_some_of_free (cfg := cfg) e hl hq
     rw [hr] at h; cases h
@@ -94,6 +95,22 @@ theorem tickC_none {cfg : Cfg} {s : St} (h : tickC cfg s = none) (hl : lqFree s 
     rw [hr] at h; cases h
   · rename_i hp; exact Or.inl hp
 
+/-- with the iteration lock free the guard of `tickCg` is void -/
+theorem tickCg_none {cfg : Cfg} {s : St} (h : tickCg cfg s = none) (hi : s.iterHeld = false) : tickC cfg s = none := by
+  unfold tickCg at h
+  rw [hi] at h
+  simpa using h
+
+/-- the commit worker blocked by a client that holds the iteration lock -/
+theorem tickCg_none_held {cfg : Cfg} {s : St} (h : tickCg cfg s = none) :
+    tickC cfg s = none ∨ (s.iterHeld = true ∧ s.pc = .enRead) := by
+  unfold tickCg at h
+  split at h
+  · rename_i hg
+    right
+    simpa using hg
+  · exact Or.inl h
+
 theorem tickK_none {cfg : Cfg} {s : St} (h : tickK cfg s = none) (hl : lqFree s = true) (hq : qFree s = true) :
     s.pk = .done ∨ (s.pk = .waitK ∧ s.cvK.waiting = true ∧ s.cvK.notified = false) := by
   unfold tickK at h
@@ -115,7 +132,8 @@ theorem tickK_none {cfg : Cfg} {s : St} (h : tickK cfg s = none) (hl : lqFree s 
 
 /-- the dropping thread is blocked only while it waits for a worker to exit (or at the ends) -/
 theorem tickD_none {cfg : Cfg} (p1 : cfg.enactChecksShutdown = true) {s : St} (h : tickD cfg s = none)
-    (hl : lqFree s = true) (hs : s.pd = .kill → s.shutdown = true) :
+    (hl : lqFree s = true) (hs : s.pd = .kill → s.shutdown = true) (ht : s.treeLocked = false)
+    (hdc : s.deferCycle = false) :
     s.pd = .idle ∨ s.pd = .done ∨ s.pd = .stuck ∨ (s.pd = .joinL ∧ s.pl ≠ .done) ∨
     (s.pd = .joinF ∧ s.pf ≠ .done) ∨ (s.pd = .joinC ∧ s.pc ≠ .done) ∨ (s.pd = .joinK ∧ s.pk ≠ .done) := by
   unfold tickD at h
@@ -136,7 +154,7 @@ theorem tickD_none {cfg : Cfg} (p1 : cfg.enactChecksShutdown = true) {s : St} (h
     · cases h
     · rename_i hn; exact Or.inr (Or.inr (Or.inr (Or.inr (Or.inr (Or.inr ⟨hp, hn⟩)))))
   · rename_i hp
-    obtain ⟨s', hk⟩ := killLogsSeq_some p1 (hs hp)
+    obtain ⟨s', hk⟩ := killLogsSeq_some p1 (hs hp) ht hdc
     rw [hk] at h; cases h
   · cases h
   · rename_i hp; exact Or.inr (Or.inr (Or.inl hp))
